@@ -20,8 +20,15 @@ def gen_case_matrix(rng, fmt, rich):
     opts = {"floats": True, "limits": False, "cycle": False, "maxframes": 3, "comments": False, "unique_signal_names": True,
             "mux": fmt != "arxml", "lengths": [1, 2, 3, 4, 8, 8, 8, 12, 16, 64] if fmt in ("dbc", "json", "arxml") else [1, 2, 4, 8, 8, 8]}
     if rich:
-        opts["factors"] = FACTORS12
-        opts["offsets"] = OFFSETS12
+        def rand_dec(nonzero):
+            nd = rng.randint(1, 12)
+            digits = str(rng.randrange(10 ** (nd - 1), 10 ** nd)) if nd > 1 else str(rng.randint(1 if nonzero else 0, 9))
+            if rng.random() < 0.3:
+                digits = digits.rstrip("0") or "1"
+            e = rng.choice([0, -1, -2, -3, -6, -7, -9, -10, -12, -20, 1, 3, 9, 10, 12])
+            return ("-" if rng.random() < 0.2 else "") + digits + ("E%+d" % e if e else "")
+        opts["factors"] = FACTORS12 + [rand_dec(True) for _ in range(12)] + ["2.5E-10", "1.5E+10", "1.25E-9"]
+        opts["offsets"] = OFFSETS12 + [rand_dec(False) for _ in range(8)]
     if fmt == "xls":
         opts["floats"] = False
     d = M.gen_matrix(rng, opts)
